@@ -44,12 +44,17 @@ REQ = ("chromosome", "start", "end")
 # generators
 
 
+STYLES = ["chr"] * 9 + ["plain"] * 9 + ["CHR", "Chr"]  # the prefix is stripped whatever its case
+
+
 def _chrom_pool(rng, style, dotted=True, exotic=True):
-    p = "chr" if style == "chr" else ""
+    p = {"chr": "chr", "plain": "", "CHR": "CHR", "Chr": "Chr"}[style]
     nums = [str(i) for i in range(1, 23)]
     pool = [p + n for n in rng.sample(nums, rng.randint(2, 8))]
     pool += [p + "1", p + "2", p + "10"][: rng.randint(0, 3)]
     pool += rng.sample([p + "X", p + "Y", p + rng.choice(["M", "MT"])], rng.randint(0, 3))
+    if rng.random() < 0.08:
+        pool += [p + rng.choice(["x", "y", "m", "mt"])]  # lower-case sex / mitochondrial names
     if rng.random() < 0.3:
         pool += [p + str(rng.choice([23, 38, 100, 101, 150, 999]))]
     if exotic and rng.random() < 0.6:
@@ -71,7 +76,7 @@ GENES = ["-", "TP53", "BRCA1,BRCA2", "A-B.1", "RP11-34P13.7", "LOC100,LOC200", "
 
 
 def _regions(rng, nmax=36, style=None, dotted=True, exotic=True, sort_prob=0.3, nmin=1):
-    style = style or rng.choice(["chr", "plain"])
+    style = style or rng.choice(STYLES)
     pool = _chrom_pool(rng, style, dotted, exotic)
     n = rng.randint(nmin, nmax)
     rows = []
@@ -227,8 +232,15 @@ def _author(rng, fmt, nmax=30, canonical_tab=False):
             lines = lines[: len(lines) - len(rows) + k] + [["track name=second"]] + lines[len(lines) - len(rows) + k:]
             trows = trows[:k]
         return lines, {"names": names, "rows": trows}, names, extra
-    if fmt == "tab":
-        t = _table(rng, cna=False, rows=rows)
+    if fmt in ("tab", "tab-cna"):
+        # "tab-cna": a hand-made .cnr/.cns (gene and log2 present), read through cnvlib.read
+        t = _table(rng, cna=(fmt == "tab-cna"), rows=rows)
+        if rng.random() < 0.3:
+            # empty cells: a row without a log2 value is dropped by the reader, other numbers are just missing
+            for r in t["rows"]:
+                for j, n in enumerate(t["names"]):
+                    if n not in ("gene", "strand") and rng.random() < 0.12:
+                        r[3][j] = None
         hdr = list(REQ) + t["names"]
         if rng.random() < 0.5 and not canonical_tab:
             # columns in arbitrary order
@@ -243,18 +255,22 @@ def _author(rng, fmt, nmax=30, canonical_tab=False):
                 d[n] = _render_cell_truth(cell)
             lines.append([d[n] for n in perm])
         t = _truth_numbers(t)
-        t = _drop_nothing(t)
-        return lines, t, t["names"], extra
+        if "log2" in t["names"]:
+            li = t["names"].index("log2")
+            t["rows"] = [r for r in t["rows"] if r[3][li] is not None]  # "every bin needs a log2 value"
+        return _blank_lines(rng, lines, 0), t, t["names"], extra
     if fmt == "interval":
         lines = []
         if rng.random() < 0.6:
             lines.append(["@HD", "VN:1.4", "SO:unsorted"])
             lines.append(["@SQ", "SN:chr1", "LN:249250621"])
         strands = [rng.choice(["+", "-"]) for _ in rows]
+        if rng.random() < 0.2:
+            genes = [("" if rng.random() < 0.3 else g) for g in genes]  # an empty name field is read as "-"
         for (c, s, e), g, st in zip(rows, genes, strands):
             lines.append([c, str(s + 1), str(e), st, g])
-        trows = [[c, s, e, [["s", g], ["s", st]]] for (c, s, e), g, st in zip(rows, genes, strands)]
-        return lines, {"names": ["gene", "strand"], "rows": trows}, ["gene"], extra
+        trows = [[c, s, e, [["s", g or "-"], ["s", st]]] for (c, s, e), g, st in zip(rows, genes, strands)]
+        return _blank_lines(rng, lines, 0), {"names": ["gene", "strand"], "rows": trows}, ["gene"], extra
     if fmt == "text":
         with_gene = rng.random() < 0.5
         sep = rng.choice([" ", "\t", "  "])
@@ -283,7 +299,7 @@ def _author(rng, fmt, nmax=30, canonical_tab=False):
                           rng.choice([".", "0", "1", "2"]), attr])
             trows.append([c, s, e, [["s", st], ["s", typ]]])
         extra["keep"] = ["strand", "type"]
-        return lines, {"names": ["strand", "type"], "rows": trows}, ["strand", "type"], extra
+        return _blank_lines(rng, lines, 0), {"names": ["strand", "type"], "rows": trows}, ["strand", "type"], extra
     if fmt == "seg":
         nsamp = rng.randint(1, 4)
         six = rng.random() < 0.6
@@ -341,7 +357,8 @@ def _author(rng, fmt, nmax=30, canonical_tab=False):
                                     _cell_f(float(_fmt_num(norm)))]])
         # class order of the extra columns: depth, gc, gene, ratio
         trows = [[c, s, e, [cl[2], cl[1], cl[0], cl[3]]] for c, s, e, cl in trows]
-        return lines, {"names": ["depth", "gc", "gene", "ratio"], "rows": trows}, ["depth", "gc", "gene", "ratio"], extra
+        return (_blank_lines(rng, lines, 0), {"names": ["depth", "gc", "gene", "ratio"], "rows": trows},
+                ["depth", "gc", "gene", "ratio"], extra)
     if fmt in ("vcf-sites", "vcf-simple"):
         lines = [["##fileformat=VCFv4.2"], ['##INFO=<ID=END,Number=1,Type=Integer,Description="e">']]
         nsamp = rng.randint(0, 2)
@@ -350,17 +367,27 @@ def _author(rng, fmt, nmax=30, canonical_tab=False):
             hdr += ["FORMAT"] + [f"S{i}" for i in range(nsamp)]
         lines.append(hdr)
         trows = []
+        # share of records that carry no END: small variants, whose end the simple readers derive from the allele
+        # lengths (start + max(0, len(alt) - len(ref)) on the already shifted start -- the readers' documented rule)
+        p_noend = rng.choice([0.0, 0.0, 0.3, 1.0])
+        nhead = len(lines)
         for (c, s, e) in rows:
             ref = "".join(rng.choice("ACGT") for _ in range(rng.choice([1, 1, 1, 2, 5])))
-            alt = rng.choice(["<DEL>", "<DUP>", "A", "T", "ACGT", "G"])
-            info = rng.choice([f"END={e}", f"SVTYPE=DEL;END={e};SVLEN=-{e - s}", f"IMPRECISE;END={e}"])
+            if rng.random() < p_noend:
+                alt = rng.choice(["A", "T", "ACGT", "G", "GA", "TTTTTTTTT", ref + "C"])
+                info = rng.choice([".", "DP=14", "AF=0.5;DP=10", "SVTYPE=INS", "DB"])
+                e = s + max(0, len(alt) - len(ref))
+            else:
+                alt = rng.choice(["<DEL>", "<DUP>", "A", "T", "ACGT", "G"])
+                info = rng.choice([f"END={e}", f"SVTYPE=DEL;END={e};SVLEN=-{e - s}", f"IMPRECISE;END={e}",
+                                   f"END={e};CIEND=-5,5"])
             l = [c, str(s + 1), ".", ref, alt, rng.choice([".", "30", "99.5"]), rng.choice([".", "PASS", "q10"]), info]
             if len(hdr) > 8:
                 l += ["GT"] + ["0/1"] * nsamp
             lines.append(l)
             trows.append([c, s, e, [["s", alt], ["s", ref]]])
         extra["keep"] = ["alt", "ref"]
-        return lines, {"names": ["alt", "ref"], "rows": trows}, ["alt", "ref"], extra
+        return _blank_lines(rng, lines, nhead), {"names": ["alt", "ref"], "rows": trows}, ["alt", "ref"], extra
     raise ValueError(fmt)
 
 
@@ -383,18 +410,104 @@ def _truth_numbers(t):
     return t
 
 
-def _drop_nothing(t):
-    return t
+def _blank_lines(rng, lines, first):
+    """a blank line somewhere at or after position `first` (the pandas-based readers and the sniffer skip them)"""
+    if rng.random() < 0.12 and len(lines) >= first:
+        k = rng.randint(first, len(lines))
+        lines = lines[:k] + [[""]] + lines[k:]
+    return lines
 
 
 AUTHOR_FORMATS = ["bed", "bed3", "bed4", "tab", "interval", "text", "gff", "seg", "picardhs", "vcf-sites", "vcf-simple"]
 
 
+def _io_options(rng, i, handle_ok=True):
+    """how the file reaches the reader: as a path or an open handle; with or without a final newline"""
+    if handle_ok and rng.random() < 0.2:
+        i["via"] = "handle"
+    if rng.random() < 0.15:
+        i["nonl"] = True
+    return i
+
+
 def _read_case(rng, fmt, tag=None, nmax=30):
     lines, truth, carried, extra = _author(rng, fmt, nmax=nmax)
-    i = {"fmt": fmt, "lines": lines, "truth": truth, "carried": carried, "cna": False}
+    i = {"fmt": "tab" if fmt == "tab-cna" else fmt, "lines": lines, "truth": truth, "carried": carried,
+         "cna": fmt == "tab-cna"}
     i.update(extra)
-    return {"op": "fmt_read", "tag": tag or f"read-{fmt}", "in": i}
+    return {"op": "fmt_read", "tag": tag or f"read-{fmt}", "in": _io_options(rng, i)}
+
+
+# every (writer, reader) pair of cnvkit's own formats that is not already a fmt_roundtrip pair; the columns the reader
+# must bring back are the ones BOTH sides carry.  "bed" (write_bed) keeps ALL columns of the table: it is a BED file
+# only for a bare table or when `gene` is the first extra column.
+CROSS_PAIRS = [("bed4", "bed3"), ("bed", "bed"), ("bed", "bed3"), ("bed", "bed4"), ("seg", "seg"), ("picardhs", "picardhs"),
+               ("interval", "interval"), ("text", "text"), ("bed3", "bed"), ("bed4", "bed4"), ("tab", "tab")]
+
+
+def _cross_case(rng, wfmt=None, rfmt=None, tag=None, nmax=24):
+    """a table written by the real writer `wfmt`, the file read by the real reader `rfmt`: the result is judged
+    against the table that was written (spec) and against the model reader run on the very file (correspondence)"""
+    if wfmt is None:
+        wfmt, rfmt = rng.choice(CROSS_PAIRS)
+    rows = _regions(rng, nmax=nmax)
+    cna = False
+    if wfmt == "seg":
+        t0 = _table(rng, cna=True, rows=rows, want_probes=rng.random() < 0.6)
+        keepn = [n for n in t0["names"] if n in ("gene", "log2", "probes")]
+        t0 = {"names": keepn, "rows": [[c, s, e, [cl[t0["names"].index(n)] for n in keepn]] for c, s, e, cl in t0["rows"]]}
+        cna = True
+    elif wfmt == "picardhs":
+        genes = rng.sample(GENES, rng.randint(1, 5))
+        t0 = {"names": ["depth", "gc", "gene"],
+              "rows": [[c, s, e, [_cell_f(rng.randint(1, 2 ** 20) / 1024), _cell_f(rng.randint(0, 1024) / 1024),
+                                  ["s", rng.choice(genes)]]] for c, s, e in rows]}
+    elif wfmt == "bed":
+        k = rng.random()
+        genes = rng.sample(GENES, rng.randint(1, 5))
+        if k < 0.4:
+            t0 = {"names": [], "rows": [[c, s, e, []] for c, s, e in rows]}  # three columns: write_bed3
+        elif k < 0.7:
+            t0 = {"names": ["gene"], "rows": [[c, s, e, [["s", rng.choice(genes)]]] for c, s, e in rows]}
+        else:
+            t0 = {"names": ["gene", "log2", "weight"],
+                  "rows": [[c, s, e, [["s", rng.choice(genes)], _cell_f(_float(rng)), _cell_f(rng.random())]] for c, s, e in rows]}
+    else:
+        cna = wfmt == "tab" and rng.random() < 0.5
+        t0 = _table(rng, cna=cna if wfmt == "tab" else None, rows=rows)
+    have = t0["names"]
+    # what the reader returns for this writer's file, and which of it comes from the table
+    if rfmt == "tab":
+        names = list(have)
+    elif wfmt == "seg":
+        names = [n for n in ("gene", "log2", "probes") if n in have]
+    elif wfmt == "picardhs":
+        names = ["depth", "gc", "gene"]
+    else:
+        w_has = {"bed3": [], "bed4": ["gene"], "bed": (["gene"] if have[:1] == ["gene"] else []),
+                 "interval": ["gene", "strand"], "text": []}[wfmt]
+        r_has = {"bed3": [], "bed4": ["gene"], "bed": ["gene"], "interval": ["gene", "strand"], "text": []}[rfmt]
+        names = [n for n in w_has if n in r_has]
+    default = {"gene": ["s", "-"], "strand": ["s", "+"]}
+    trows = []
+    for c, s, e, cells in t0["rows"]:
+        d = dict(zip(have, cells))
+        out = []
+        for n in names:
+            cell = d.get(n, default.get(n))
+            if wfmt == "seg" and n == "gene":
+                cell = ["s", "-"]  # SEG has no name column
+            out.append(cell)
+        trows.append([c, s, e, out])
+    i = {"fmt": rfmt, "lines": None, "truth": {"names": names, "rows": trows}, "carried": names, "cna": cna and rfmt == "tab",
+         "written_by": {"wfmt": wfmt, "cna": cna, "t0": t0}}
+    if rng.random() < 0.4:
+        i["written_by"]["sub"] = rng.randint(1, 10 ** 6)
+    if rng.random() < 0.2:
+        i["written_by"]["via"] = "handle"
+    i = _io_options(rng, i)
+    i.pop("nonl", None)  # the file is the writer's
+    return {"op": "fmt_read", "tag": tag or f"cross-{wfmt}-{rfmt}", "in": i}
 
 
 AUTO_EXTS = ["bed", "txt", "tsv", "interval_list", "list", "gff", "gff3", "cnr", "cnn", "cns", "", "interval", "text", "tab"]
@@ -550,10 +663,12 @@ def _malformed(rng):
 # the real code
 
 
-def _write_lines(path, lines):
+def _write_lines(path, lines, nonl=False):
+    text = "".join("\t".join(l) + "\n" for l in lines)
+    if nonl and text.endswith("\n") and not text.endswith("\n\n"):
+        text = text[:-1]  # a file whose last line is not terminated
     with open(path, "w", newline="") as fh:
-        for l in lines:
-            fh.write("\t".join(l) + "\n")
+        fh.write(text)
 
 
 def _read_lines(path):
@@ -618,23 +733,66 @@ def _frame(t):
     return pd.DataFrame(data, columns=list(REQ) + list(t["names"]))
 
 
-def _array(t, cna, sid="S"):
+def _array(t, cna, sid="S", sub=None):
+    """the table as a GenomicArray / CopyNumArray.  With `sub` (a seed) it is built as a filtered SUBSET of a larger
+    array (junk rows interleaved, then masked away): its pandas index labels are not 0..n-1, as for every table
+    that went through a filter (one chromosome, targets only, drop_low_coverage ...)."""
     from skgenome import GenomicArray
     from cnvlib.cnary import CopyNumArray
 
-    return (CopyNumArray if cna else GenomicArray)(_frame(t), {"sample_id": sid})
+    cls = CopyNumArray if cna else GenomicArray
+    if sub is None or not t["rows"]:
+        return cls(_frame(t), {"sample_id": sid})
+    import random
+    import numpy as np
+
+    rng = random.Random(sub)
+    big, mask = [], []
+    for r in t["rows"]:
+        for _ in range(rng.choice([0, 1, 1, 2, 3])):
+            big.append(copy.deepcopy(rng.choice(t["rows"])))
+            mask.append(False)
+        big.append(r)
+        mask.append(True)
+    if all(mask):
+        big.insert(0, copy.deepcopy(t["rows"][0]))
+        mask.insert(0, False)
+    arr = cls(_frame({"names": t["names"], "rows": big}), {"sample_id": sid})
+    out = arr[np.array(mask)]
+    assert len(out) == len(t["rows"]) and list(out.data.index) != list(range(len(out)))
+    return out
 
 
-def _reader(path, fmt, cna, sel=None):
+def _reader(path, fmt, cna, sel=None, via=None):
+    """tabio.read / cnvlib.read on a path, or on an open handle (`via` = "handle")"""
     from skgenome import tabio
     import cnvlib
 
+    if via == "handle":
+        with open(path) as fh:
+            return _reader(fh, fmt, cna, sel)
     if cna and fmt == "tab":
         return cnvlib.read(path)
     kw = {}
     if sel is not None:
         kw["sample_id"] = sel
     return tabio.read(path, fmt, **kw)
+
+
+def _writer(arr, path, fmt, via=None, **kw):
+    """tabio.write to a path, or to an open handle"""
+    from skgenome import tabio
+
+    if via == "handle":
+        with open(path, "w") as fh:
+            tabio.write(arr, fh, fmt, **kw)
+    else:
+        tabio.write(arr, path, fmt, **kw)
+
+
+def _write_by(wb, path):
+    kw = {"chrom_ids": False} if wb["wfmt"] == "seg" else {}
+    _writer(_array(wb["t0"], wb["cna"], sub=wb.get("sub")), path, wb["wfmt"], wb.get("via"), **kw)
 
 
 def run_impl(case):
@@ -645,9 +803,16 @@ def run_impl(case):
     try:
         if op == "fmt_read":
             p = os.path.join(d, "input.dat")
-            _write_lines(p, i["lines"])
-            arr = _reader(p, i["fmt"], i.get("cna", False), i.get("sel"))
-            return _canon(arr.data, i.get("keep"))
+            wb = i.get("written_by")
+            if wb:
+                _write_by(wb, p)
+            else:
+                _write_lines(p, i["lines"], i.get("nonl"))
+            arr = _reader(p, i["fmt"], i.get("cna", False), i.get("sel"), i.get("via"))
+            out = _canon(arr.data, i.get("keep"))
+            if wb:
+                out["lines"] = _read_lines(p)  # the model reader is run on the very file the real writer made
+            return out
         if op == "fmt_auto":
             p = os.path.join(d, "input" + ("." + i["ext"] if i["ext"] else ""))
             wb = i.get("written_by")
@@ -730,8 +895,10 @@ def to_line(case, impl):
     op, i = case["op"], case["in"]
     if op == "fmt_read":
         line = {"op": op, "in": {k: v for k, v in i.items() if k in ("fmt", "lines", "cna", "sel", "truth", "carried") and v is not None}}
+        if i.get("written_by"):
+            line["in"]["lines"] = [] if _is_err(impl) else impl["lines"]
         if not _is_err(impl):
-            line["impl"] = impl
+            line["impl"] = {"names": impl["names"], "rows": impl["rows"]}
         return line
     if op == "fmt_auto":
         lines = i["lines"] if _is_err(impl) or "lines" not in impl else impl["lines"]
